@@ -336,7 +336,8 @@ class error_999_visitor(pyx12.error_visitor.error_visitor):
             if err_cde in valid_IK4_codes:
                 seg_data = pyx12.segment.Segment(seg_str, '~', '*', ':')
                 seg_data.set('IK403', err_cde)
-                if bad_value:
+                if bad_value and not [t for t in (self.seg_term, self.ele_term, self.subele_term) if t in bad_value]:
+                    # a copy that contains one of our own delimiters would add or split elements
                     seg_data.set('IK404', bad_value)
 # todo: add element context
                 self.wr.Write(seg_data)
